@@ -62,6 +62,10 @@ func zzC02Stack(nFiles int) ([]*Reader, []zzDesc) {
 		{id: 1, cport: 1001, sport: 80, cbytes: 3, sbytes: 2, first: 1 * sec, last: 3 * sec}, // newer version of 1
 		{id: 3, cport: 999, sport: 443, cbytes: 1, sbytes: 1, first: 2500 * time.Millisecond, last: 2600 * time.Millisecond},
 	}
+	if zz.Param("ties", 0) == 1 {
+		// streams that tie on the first and on the last packet time
+		file0[2].first, file0[2].last = 1*sec, 10*sec
+	}
 	dir := zz.TempDir()
 	build := func(name string, ds []zzDesc) *Reader {
 		w, err := NewWriter(dir + "/" + name)
@@ -176,6 +180,21 @@ func zzSortings() []zzSortSpec {
 				}
 				return a.id > b.id
 			}},
+		// first key has a sorted lookup and ties, the second key decides
+		{[]query.Sorting{{Key: query.SortingKeyFirstPacketTime}, {Key: query.SortingKeyID, Dir: query.SortingDirDescending}},
+			func(a, b zzDesc) bool {
+				if a.first != b.first {
+					return a.first < b.first
+				}
+				return a.id > b.id
+			}},
+		{[]query.Sorting{{Key: query.SortingKeyLastPacketTime, Dir: query.SortingDirDescending}, {Key: query.SortingKeyClientPort}},
+			func(a, b zzDesc) bool {
+				if a.last != b.last {
+					return a.last > b.last
+				}
+				return a.cport < b.cport
+			}},
 	}
 }
 
@@ -186,7 +205,7 @@ func ZZ_C02_Search() {
 	forms := zz.Param("queryforms", zzNumQueryForms)
 	qs, truth := zzQuery(zz.Param("queryfrom", 0)+zz.Choice("query", forms), tagBits)
 	sorts := zzSortings()
-	sp := sorts[zz.Choice("sort", zz.Param("sortings", len(sorts)))]
+	sp := sorts[zz.Param("sortfrom", 0)+zz.Choice("sort", zz.Param("sortings", len(sorts)))]
 	limit := uint([]int{1, 2, 3, 100}[zz.Choice("limit", zz.Param("limits", 4))])
 	skip := uint(zz.Choice("skip", zz.Param("skips", 2)))
 
